@@ -1,5 +1,7 @@
 PROP = dict(
         coq="Properties/C18.v",
+        # directed search after a broken correspondence / proof: two more seeds at twice the quick budget
+        search_rounds=2, search_env=dict(VERIF_CASES=3000),
         workloads=[
             dict(name="accrual-rates", go_test="TestC18", runner="C18",
                  env=dict(quick=dict(VERIF_CASES=1500), thorough=dict(VERIF_CASES=40000))),
